@@ -238,3 +238,52 @@ Example C02_engine_example_counters :
   (exists e, den 100 p = Ok e [6; 2; 1]%Z) /\
   (exists st T, run 400 (init (print p)) [] = Done st T /\ text_of T = words_text [1; 2; 6]%Z).
 Proof. vm_compute. repeat split; eexists; try eexists; repeat split. Qed.
+
+(* ---- stage 4: F3 = F2 + nested definitions with parameters of their own ----
+   A definition written inside the body of a macro with parameters writes its own parameters ##k (parameter text and body); the
+   body of a definition is printed in body mode (MacroPrint.printb: NParam2 k = ##k, NParam k = #k of the enclosing macro).  When
+   the outer macro is called, expandDef replaces #k by the arguments and turns ##k into #k: the reference evaluator does the same
+   on the tree (MacroLang.subst replaces NParam, MacroLang.lower turns NParam2 into NParam).  F3 (MacroPrint.in_F3, fb3_node /
+   fi_node) allows such a definition - \def with 1..9 parameters, or a global \newcommand with an optional argument - directly in
+   the body of a macro that has at least one parameter (also under groups and conditional branches there, not inside a call
+   argument), its own body being words, #k, ##k, groups, calls, conditionals (no further definition); and in the body of a
+   parameterless \def made of words and such \def's (there \def itself reduces ##k, see the second example).  Same conclusion as for F2:
+   visible text, balanced frames, and the global frame holds for every macro the parameter text and the body (in body mode) that
+   den's global frame holds. *)
+Theorem C02_engine_simulates_F3 :
+  forall (fuel : nat) (p : list node) (e : env) (out : list Z),
+    in_F3 p = true -> den fuel p = Ok e out -> gdef_safe fuel p = true ->
+    exists (fuel' : nat) (st' : state) (T : list tok),
+      run fuel' (init (print p)) [] = Done st' T /\
+      text_of T = words_text (rev out) /\
+      ups st' = [] /\
+      (forall id, findm (mname id) (bottom st') = option_map mean_of (alookup id (last (frames e) []))) /\
+      (forall k, (forall id, k <> mname id) -> swkey k = false -> findm k (bottom st') = findm k base_frame).
+Proof. exact engine_simulates_F3. Qed.
+
+(* non-vacuity: a nested \def with ##1 ##2 and a nested \newcommand with ##1 ##2, both also using #1 of the outer macro
+   \def\A#1{\def\B##1##2{W1 #1##2{##1}}\newcommand{\C}[2][W5 ]{##2#1##1}}
+   \A{W2 }\B{W3 }{W4 }\C{W6 }\C[W7 ]{W8 }      ->   W1 W2 W4 W3  W6 W2 W5  W8 W2 W7 *)
+Example C02_engine_example_F3 :
+  let p := ([NDef false 1 1 None [NDef false 2 2 None [NWord 1; NParam 1; NParam2 2; NGroup [NParam2 1]];
+                                  NDef true 3 1 (Some [NWord 5]) [NParam2 2; NParam 1; NParam2 1]];
+            NCall 1 None [[NWord 2]]; NCall 2 None [[NWord 3]; [NWord 4]];
+            NCall 3 None [[NWord 6]]; NCall 3 (Some [NWord 7]) [[NWord 8]]])%Z in
+  in_F3 p = true /\ gdef_safe 100 p = true /\
+  (exists e, den 100 p = Ok e [7; 2; 8; 5; 2; 6; 3; 4; 2; 1]%Z) /\
+  (exists st T, run 600 (init (print p)) [] = Done st T /\ text_of T = words_text [1; 2; 4; 3; 6; 2; 5; 8; 2; 7]%Z).
+Proof. vm_compute. repeat split; eexists; try eexists; repeat split. Qed.
+
+(* a parameterless outer macro: its body is handed back as it is (no expandDef), and \def itself (DefCommand, "nested" parameter
+   text ##1##2) removes one level of # from the parameter text and the body - Engine.reduce_hashes.  In F3 such a body is made of
+   words and \def's with ##k (MacroPrint.fv_node).
+   \def\A{W1 \def\B##1##2{##2{##1}}}\A\B{W2 }{W3 }{\A}   ->   W1 W3 W2 W1 *)
+Example C02_engine_example_F3_reduce :
+  let p := ([NDef false 1 O None [NWord 1; NDef false 2 2 None [NParam2 2; NGroup [NParam2 1]]];
+            NCall 1 None []; NCall 2 None [[NWord 2]; [NWord 3]]; NGroup [NCall 1 None []]])%Z in
+  in_F3 p = true /\ gdef_safe 100 p = true /\
+  (exists e, den 100 p = Ok e [1; 2; 3; 1]%Z) /\
+  (exists st T, run 600 (init (print p)) [] = Done st T /\ text_of T = words_text [1; 3; 2; 1]%Z).
+Proof. vm_compute. repeat split; eexists; try eexists; repeat split. Qed.
+
+Print Assumptions C02_engine_simulates_F3.
